@@ -80,8 +80,14 @@ static inline void ABTI_thread_unset_request(ABTI_thread *p_thread,
 #define ABTI_THREAD_HANDLE_REQUEST_CANCELLED ((int)0x1)
 #define ABTI_THREAD_HANDLE_REQUEST_MIGRATED ((int)0x2)
 
-static inline int ABTI_thread_handle_request(ABTI_thread *p_thread,
-                                             ABT_bool allow_termination)
+/* p_local_xstream is the execution stream that handles the request.  It is not
+ * necessarily p_thread->p_last_xstream: when the request is handled right after
+ * p_thread is popped, p_thread may have run on another execution stream (or on
+ * none) so far, while the resources released by a cancellation must go to the
+ * memory pools of the execution stream that releases them. */
+static inline int ABTI_thread_handle_request_on(ABTI_xstream *p_local_xstream,
+                                                ABTI_thread *p_thread,
+                                                ABT_bool allow_termination)
 {
 #if defined(ABT_CONFIG_DISABLE_CANCELLATION) &&                                \
     defined(ABT_CONFIG_DISABLE_MIGRATION)
@@ -95,7 +101,7 @@ static inline int ABTI_thread_handle_request(ABTI_thread *p_thread,
 #ifndef ABT_CONFIG_DISABLE_CANCELLATION
     if (allow_termination && ABTU_unlikely(request & ABTI_THREAD_REQ_CANCEL)) {
         ABTI_thread_handle_request_cancel(ABTI_global_get_global(),
-                                          p_thread->p_last_xstream, p_thread);
+                                          p_local_xstream, p_thread);
         return ABTI_THREAD_HANDLE_REQUEST_CANCELLED;
     }
 #endif /* !ABT_CONFIG_DISABLE_CANCELLATION */
@@ -107,7 +113,7 @@ static inline int ABTI_thread_handle_request(ABTI_thread *p_thread,
         int abt_errno =
             ABTI_thread_handle_request_migrate(ABTI_global_get_global(),
                                                ABTI_xstream_get_local(
-                                                   p_thread->p_last_xstream),
+                                                   p_local_xstream),
                                                p_thread);
         if (abt_errno == ABT_SUCCESS) {
             return ABTI_THREAD_HANDLE_REQUEST_MIGRATED;
@@ -118,6 +124,15 @@ static inline int ABTI_thread_handle_request(ABTI_thread *p_thread,
 
     return ABTI_THREAD_HANDLE_REQUEST_NONE;
 #endif
+}
+
+/* For a work unit that has just been running on the calling execution stream
+ * (p_thread->p_last_xstream is that execution stream). */
+static inline int ABTI_thread_handle_request(ABTI_thread *p_thread,
+                                             ABT_bool allow_termination)
+{
+    return ABTI_thread_handle_request_on(p_thread->p_last_xstream, p_thread,
+                                         allow_termination);
 }
 
 ABTU_ret_err static inline int
